@@ -223,6 +223,8 @@ def run(ctx):
     )
     ctx.hyp(text, lambda s: check_total(ctx, s, part="total-random"), 1500 if quick else 40000, salt=1)
     ctx.hyp_sharded("roundtrip", 12000 if quick else 160000, salt=2)
+    if not quick:
+        ctx.fuzz("c08", 400000)
     try:
         from props import c01
     except ImportError:
